@@ -1796,10 +1796,12 @@ void femm::FemmProblem::mirrorCopy(double x0, double y0, double x1, double y1, f
                 // copy arc (with identical endpoints)
                 std::unique_ptr<CArcSegment> newarc = MAKE_UNIQUE<CArcSegment>(*arc);
                 newarc->IsSelected = false;
-                // set endpoints
-                newarc->n0 = (int)nodelist.size();
-                nodelist.push_back(std::move(n0));
+                // set endpoints; a reflection reverses the sense of rotation, so the
+                // image of the counter-clockwise arc n0->n1 runs from the image of n1
+                // to the image of n0
                 newarc->n1 = (int)nodelist.size();
+                nodelist.push_back(std::move(n0));
+                newarc->n0 = (int)nodelist.size();
                 nodelist.push_back(std::move(n1));
                 arclist.push_back(std::move(newarc));
             }
